@@ -207,8 +207,76 @@ def obligations():
     return obs
 
 
+def _guard_returns(fn, is_guard, allow_before=lambda r: False):
+    """(guard found?, offending returns): every `return <not False>` of fn must come after the top-level guard statement
+    (an `if ...: return False`) selected by is_guard"""
+    gi = None
+    for i, st in enumerate(fn.body):
+        if isinstance(st, ast.If) and len(st.body) == 1 and isinstance(st.body[0], ast.Return) and isinstance(st.body[0].value, ast.Constant) and st.body[0].value.value is False and is_guard(st, fn.body[:i]):
+            gi = i
+            break
+    if gi is None:
+        return False, []
+    bad = []
+    for st in fn.body[:gi]:
+        for n in ast.walk(st):
+            if isinstance(n, ast.Return) and not (isinstance(n.value, ast.Constant) and n.value.value is False) and not allow_before(n):
+                bad.append(n)
+    # and nothing before the guard creates tokens or writes the state
+    for st in fn.body[:gi]:
+        for n in ast.walk(st):
+            if isinstance(n, ast.Call) and isinstance(n.func, ast.Attribute) and n.func.attr == "push" and not ast.unparse(n.func.value).endswith(("ruler", "ruler2")):
+                bad.append(n)
+            if isinstance(n, (ast.Assign, ast.AugAssign)):
+                for t in (n.targets if isinstance(n, ast.Assign) else [n.target]):
+                    if isinstance(t, (ast.Attribute, ast.Subscript)) and ast.unparse(t).startswith("state."):
+                        bad.append(n)
+    return True, bad
+
+
+def conservativity_obligations():
+    """C10(b): the optional extensions cannot succeed, create tokens or write the state before they have seen their
+    trigger characters: table - the header line contains '|'; strikethrough - the character at pos is '~' and the run has
+    length >= 2 (so without '|' resp. '~~' in the source they are no-ops)."""
+    obs = []
+    try:
+        mi, fn, canon = S.resolve_function("markdown_it.rules_block.table.table")
+
+        def is_pipe_guard(st, before):
+            t = ast.unparse(st.test).replace("'", '"')
+            if t != '"|" not in lineText':
+                return False
+            for b in reversed(before):
+                if isinstance(b, ast.Assign) and ast.unparse(b.targets[0]) == "lineText":
+                    return ast.unparse(b.value) == "getLine(state, startLine).strip()"
+            return False
+
+        found, bad = _guard_returns(fn, is_pipe_guard)
+        ok = found and not bad
+        obs.append({"oid": f"{canon}/GUARD/pipe-before-success", "verdict": "discharged" if ok else "failed", "func": canon,
+                    "info": "every success, token and state write of table() comes after `if \"|\" not in <header line>: return False`" if ok else
+                            ("the header-line '|' test was not found" if not found else f"table() can succeed or write before it has seen a '|' in the header line (line {bad[0].lineno})")})
+    except S.SourceError as e:
+        obs.append({"oid": "markdown_it.rules_block.table.table/GUARD/pipe-before-success", "verdict": "undecided", "func": "markdown_it.rules_block.table.table", "info": str(e)})
+    try:
+        mi, fn, canon = S.resolve_function("markdown_it.rules_inline.strikethrough.tokenize")
+        found1, bad1 = _guard_returns(fn, lambda st, before: ast.unparse(st.test).replace("'", '"') == 'ch != "~"' and any(ast.unparse(b) == "ch = state.src[start]" for b in before))
+        found2, bad2 = _guard_returns(fn, lambda st, before: ast.unparse(st.test) == "length < 2" and any(ast.unparse(b) == "length = scanned.length" for b in before))
+        ok = found1 and found2 and not bad1 and not bad2
+        obs.append({"oid": f"{canon}/GUARD/tilde-run-before-success", "verdict": "discharged" if ok else "failed", "func": canon,
+                    "info": "strikethrough.tokenize succeeds and writes only after `ch != \"~\"` and `length < 2` returned False" if ok else "strikethrough.tokenize can succeed or write without a run of two '~'"})
+        # its post-processing touches only '~' delimiters
+        mi, pf, pc = S.resolve_function("markdown_it.rules_inline.strikethrough._postProcess")
+        t = ast.unparse(pf)
+        ok = "startDelim.marker != 126" in t or "startDelim.marker != 0x7E" in t
+        obs.append({"oid": f"{pc}/GUARD/only-tilde-delimiters", "verdict": "discharged" if ok else "failed", "func": pc, "info": "delimiters with another marker are skipped"})
+    except S.SourceError as e:
+        obs.append({"oid": "markdown_it.rules_inline.strikethrough.tokenize/GUARD/tilde-run-before-success", "verdict": "undecided", "func": "markdown_it.rules_inline.strikethrough.tokenize", "info": str(e)})
+    return obs
+
+
 def add_obligations(rep, prop):
-    obs = obligations()
+    obs = obligations() + conservativity_obligations()
     for o in obs:
         kind = o["oid"].split("/")[-2] if "/" in o["oid"] else "VOCAB"
         rep.obs.append(Ob(oid=f"{prop}/{o['oid']}", kind=kind, func=o["func"], backend="vocab", verdict=o["verdict"], info=o["info"], solver="literal / dominance analysis of the real source"))
